@@ -56,3 +56,22 @@ func VerifPoint(name string, m *ModuleInstance) {
 		t(VerifEvent{Ev: "point:" + name, Mod: m})
 	}
 }
+
+// VerifWaitEvent is what the wait/notify hooks report (memory.atomic.wait32/64, memory.atomic.notify).
+type VerifWaitEvent struct {
+	Ev     string // enqueue | notequal | notify | woken | timeout-fired | timeout-removed
+	Mem    *MemoryInstance
+	Offset uint32
+	Waiter interface{} // identity of the waiting entry (its channel): enqueue, woken, timeout-*; notify: []interface{} of the woken
+	N      uint32      // notify: number of waiters woken
+}
+
+// VerifWaitTracer receives every wait/notify event synchronously; it may block (scheduler gate). The enqueue,
+// notequal, notify and timeout-removed events are emitted while the waiters' lock is held.
+var VerifWaitTracer func(e VerifWaitEvent)
+
+func verifWait(ev string, m *MemoryInstance, waiter interface{}, n uint32) {
+	if t := VerifWaitTracer; t != nil {
+		t(VerifWaitEvent{Ev: ev, Mem: m, Waiter: waiter, N: n})
+	}
+}
